@@ -124,3 +124,54 @@ Theorem C01_kh_folded_hamiltonian :
   coeff R rO radd (act_poly R rmul ropp (kh_folded_poly R rO ropp ts) v) d.
 Proof. exact kh_folded_poly_sound. Qed.
 Print Assumptions C01_kh_folded_hamiltonian.
+
+(* --- the table-driven one-body kernel (TableThm.v): on |a, b> = rev (bits a) ++ rev (bits b) an excitation of either
+   spin acts as that spin's table entry says (target string s - j + i, sign odd (count_bits_between s i j)), the other
+   spin's electrons are not seen; single annihilations cost count_bits_above (alpha) and n_alpha + count_bits_above
+   (beta); and the push-forward built from the table entries has the coefficients of sum_ij h_ij (a†_ia a_ja + a†_ib a_jb)
+   acting on the vector - every orbital count, every matrix over any commutative ring, every sparse vector *)
+From FQE Require Import Maps TableThm.
+Theorem C01_alpha_excitation_is_table_entry : forall norb a b i j, i < norb -> j < norb ->
+  scomp (cre (pos2 norb false i)) (ann (pos2 norb false j)) (det2 norb a b)
+  = match tab_entry a i j with Some (a', sg) => Some (sg, det2 norb a' b) | None => None end.
+Proof. exact tab_alpha. Qed.
+Print Assumptions C01_alpha_excitation_is_table_entry.
+
+Theorem C01_beta_excitation_is_table_entry : forall norb a b i j, i < norb -> j < norb ->
+  scomp (cre (pos2 norb true i)) (ann (pos2 norb true j)) (det2 norb a b)
+  = match tab_entry b i j with Some (b', sg) => Some (sg, det2 norb a b') | None => None end.
+Proof. exact tab_beta. Qed.
+Print Assumptions C01_beta_excitation_is_table_entry.
+
+Theorem C01_table_entry_is_fci_graph_entry : forall strs i j s,
+  exc_entry strs i j s
+  = match tab_entry s i j with Some (t, sg) => Some (idx strs s, idx strs t, sg) | None => None end.
+Proof. exact exc_entry_tab. Qed.
+Print Assumptions C01_table_entry_is_fci_graph_entry.
+
+Theorem C01_alpha_annihilation_sign : forall norb a b j, j < norb -> tb a j = true ->
+  ann (pos2 norb false j) (det2 norb a b)
+  = Some (Nat.odd (cnt_range a (S j) norb), det2 norb (clrbit a j) b).
+Proof. exact alpha_annihilation. Qed.
+Print Assumptions C01_alpha_annihilation_sign.
+
+Theorem C01_beta_annihilation_sign : forall norb a b j, j < norb -> tb b j = true ->
+  ann (pos2 norb true j) (det2 norb a b)
+  = Some (xorb (Nat.odd (cnt_range a 0 norb)) (Nat.odd (cnt_range b (S j) norb)), det2 norb a (clrbit b j)).
+Proof. exact beta_annihilation. Qed.
+Print Assumptions C01_beta_annihilation_sign.
+
+Theorem C01_one_body_tables_sound :
+  forall (R : Type) (rO rI : R) (radd rmul rsub : R -> R -> R) (ropp : R -> R),
+  ring_theory rO rI radd rmul rsub ropp eq ->
+  forall (norb : nat) (h : nat -> nat -> R) (v : svec R) (d : det),
+  coeff R rO radd (vecof R norb (apply1 R rmul ropp norb h v)) d
+  = coeff R rO radd (act_poly R rmul ropp (one_body_poly R norb h) (vecof R norb v)) d.
+Proof. exact apply1_tables_sound. Qed.
+Print Assumptions C01_one_body_tables_sound.
+
+(* the model's determinant layout is the one of TableThm *)
+Theorem C01_det_layout : forall norb a b beta i,
+  det_of norb a b = det2 norb a b /\ pos_of norb beta i = pos2 norb beta i.
+Proof. intros. split; reflexivity. Qed.
+Print Assumptions C01_det_layout.
